@@ -406,6 +406,7 @@ func (m *mbModel) providerCall(f *kit.Func, call *ast.CallExpr) (names []string,
 // missing keys are environment unknowns.
 func (m *mbModel) reqInterp(fc, dataLen int64, words map[int64]int64) *kit.Interp {
 	ip := &kit.Interp{P: m.c.P, F: m.Req}
+	m.hook(ip, nil)
 	offsets := m.wordReads()
 	ip.Input = func(key string, t types.Type) (kit.IVal, bool) {
 		switch {
@@ -437,7 +438,12 @@ func (m *mbModel) reqInterp(fc, dataLen int64, words map[int64]int64) *kit.Inter
 func (m *mbModel) wordReads() map[token.Pos]int64 {
 	out := map[token.Pos]int64{}
 	info := m.Req.Info()
-	ast.Inspect(m.Req.Body, func(n ast.Node) bool {
+	for _, fn := range m.c.P.Funcs("modbus") {
+	 f := fn
+	 if f.Decl == nil || f.Body == nil {
+		continue
+	 }
+	 ast.Inspect(f.Body, func(n ast.Node) bool {
 		call, ok := n.(*ast.CallExpr)
 		if !ok {
 			return true
@@ -446,7 +452,7 @@ func (m *mbModel) wordReads() map[token.Pos]int64 {
 			return true
 		}
 		se, ok := ast.Unparen(call.Args[0]).(*ast.SliceExpr)
-		if !ok || !m.isReqData(m.Req, se.X) {
+		if !ok || !m.isReqData(f, se.X) {
 			return true
 		}
 		lo := int64(0)
@@ -459,7 +465,8 @@ func (m *mbModel) wordReads() map[token.Pos]int64 {
 		}
 		out[call.Pos()] = lo
 		return true
-	})
+	 })
+	}
 	return out
 }
 
@@ -477,7 +484,15 @@ func (m *mbModel) isReqData(f *kit.Func, e ast.Expr) bool {
 	if o == nil {
 		return false
 	}
-	// the receiver of the processor
+	if rt := o.Type(); rt != nil {
+		if p, isPtr := rt.Underlying().(*types.Pointer); isPtr {
+			rt = p.Elem()
+		}
+		if !types.Identical(rt, m.PduType) {
+			return false
+		}
+	}
+	// the receiver of the function
 	if f.Decl != nil && f.Decl.Recv != nil {
 		for _, fl := range f.Decl.Recv.List {
 			for _, nm := range fl.Names {
@@ -493,4 +508,78 @@ func (m *mbModel) isReqData(f *kit.Func, e ast.Expr) bool {
 		}
 	}
 	return false
+}
+
+// fnOf returns the declared function of package modbus that contains pos.
+func (m *mbModel) fnOf(n ast.Node) *kit.Func {
+	for _, f := range m.c.P.Funcs("modbus") {
+		if f.Decl != nil && f.Decl.Pos() <= n.Pos() && n.End() <= f.Decl.End() {
+			return f
+		}
+	}
+	return m.Req
+}
+
+const mbExcEvent = "exc:"
+
+// hook installs the call observer of a scenario evaluation: the exception
+// mapper is never evaluated in line, a call of it is recorded as the event
+// "exc:<code>" (constant exception code) or "exc:err" (an error value of
+// the provider or of a library); every other call goes to user.
+func (m *mbModel) hook(ip *kit.Interp, user func(call *ast.CallExpr, args []kit.IVal) (string, []kit.IVal)) {
+	ip.NoInline = func(cf *kit.Func) bool { return cf == m.Mapper }
+	ip.OnCall = func(call *ast.CallExpr, args []kit.IVal) (string, []kit.IVal) {
+		f := m.fnOf(call)
+		if f.CalleeFunc(call) == m.Mapper && len(args) == 1 {
+			ev := mbExcEvent + "err"
+			if args[0].K == 'i' && args[0].Dyn != nil && types.Identical(args[0].Dyn, m.ExcType) {
+				ev = fmt.Sprintf("%s%d", mbExcEvent, args[0].I)
+			} else if args[0].K == 'n' {
+				ev = mbExcEvent + "nil"
+			}
+			return ev, []kit.IVal{{K: 'b'}, {K: 'u'}, {K: 'n'}}
+		}
+		if user != nil {
+			return user(call, args)
+		}
+		return "", nil
+	}
+}
+
+// exitExc classifies an exit of the request processor: it returns the
+// mapper's results, and the mapper was given the constant code / an error value.
+func (m *mbModel) exitExc(e kit.IExit) (code int64, isErr, ok bool) {
+	if e.Ret == nil || len(e.Ret.Results) != 1 {
+		return 0, false, false
+	}
+	call, isCall := ast.Unparen(e.Ret.Results[0]).(*ast.CallExpr)
+	if !isCall || m.fnOf(call).CalleeFunc(call) != m.Mapper {
+		return 0, false, false
+	}
+	for i := len(e.Trace) - 1; i >= 0; i-- {
+		if strings.HasPrefix(e.Trace[i], mbExcEvent) {
+			switch rest := e.Trace[i][len(mbExcEvent):]; rest {
+			case "err":
+				return 0, true, true
+			case "nil":
+				return 0, false, false
+			default:
+				var v int64
+				fmt.Sscanf(rest, "%d", &v)
+				return v, false, true
+			}
+		}
+	}
+	return 0, false, false
+}
+
+// provEvents returns the path events other than exception mapper calls.
+func provEvents(trace []string) []string {
+	var out []string
+	for _, t := range trace {
+		if !strings.HasPrefix(t, mbExcEvent) {
+			out = append(out, t)
+		}
+	}
+	return out
 }
